@@ -368,6 +368,11 @@ func genC18(out *Out, r *Rng, tier string, n int, shard int) {
 		case "2020":
 			root = append(root, KV{"$schema", "https://json-schema.org/draft/2020-12/schema"})
 		}
+		if r.Chance(45) {
+			// schemas are published under a stable $id; revisions of a schema (and unrelated schemas of a careless issuer)
+			// share it. The identifier is a name, not the content: what is validated against is the schema given
+			root = append(root, KV{"$id", fmt.Sprintf("https://schemas.example/kyc-v%d.json", r.Intn(3))})
+		}
 		root = append(root, KV{"$metadata", OObj{{"uris", OObj{{"jsonLdContext", "https://example.com/ctx.jsonld"}}}, {"version", "1.0"}, {"type", "X"}}})
 		body := g.schema(3)
 		bo, isObj := body.(OObj)
